@@ -2,6 +2,7 @@
 from lib import *
 
 PROP = "C10"
+PAR_OK = True
 LEVEL = "proof"
 RULE = ("reference tree on 4..12 taxa (rooted or not, binary or multifurcating, parent slot at random positions, old supports "
         "on inner branches, root with a tip child included) and 1..7 bootstrap trees on the same taxa drawn from: the reference "
